@@ -77,6 +77,9 @@ func runC01(c *Ctx) {
 	c.guard("R01-legal", func() { c01Legal(c, bm) })
 	c.guard("R01-masks", func() { c01Generator(c, bm) })
 	c.guard("R01-meta", func() { c01Meta(c, bm) })
+	// the castling rights the generator trusts must have been maintained correctly by every earlier move
+	r.Rule("R01-rights", "the castling rights the generator consults are maintained exactly: a move drops the rights whose king or rook home square it leaves or lands on (the rule of C02, re-decided here because an illegal castling move is its direct consequence)", 27)
+	c.guard("R01-rights", func() { r.WithAlias("R02-rights", "R01-rights", func() { c02Rights(c, bm) }) })
 }
 
 func c01Legal(c *Ctx, bm *boardModel) {
@@ -203,11 +206,11 @@ func c01Generator(c *Ctx, bm *boardModel) {
 	where := c.pos(plm.Pos())
 	opaque := map[string]string{}
 	for _, n := range []string{"Attackboard", "KingAttackboard", "PawnCaptureboard", "PawnMoveboard", "PawnJumpRank", "PawnPromotionRank"} {
-		if f := c.P.Func("pkg/board", "", n); f != nil {
+		if f := c.find("pkg/board", "", n); f != nil {
 			opaque[f.String()] = n
 		}
 	}
-	lastPop := c.P.Func("pkg/board", "Bitboard", "LastPopSquare")
+	lastPop := c.find("pkg/board", "Bitboard", "LastPopSquare")
 	in := newInterp(c.P)
 	in.SymLoopLimit = 1
 	in.MaxPaths = 200000
@@ -446,7 +449,7 @@ func c01Castle(c *Ctx, bm *boardModel, s emitSite, kind string) {
 	r.Check(bad == "", "R01-castle", cons, "", "", bad+" [guards: "+s.facts+"]")
 
 	// the squares that must not be attacked
-	safe := c.P.Func("pkg/board", "", "safeCastlingSquares")
+	safe := c.find("pkg/board", "", "safeCastlingSquares")
 	if safe == nil {
 		r.Undecided("R01-castle", cons+" safe squares", "", "", "safeCastlingSquares not found")
 		return
@@ -479,7 +482,7 @@ func c01Meta(c *Ctx, bm *boardModel) {
 	emitMove := c.fn("R01-meta", "pkg/board", "Position", "emitMove")
 	emitPromo := c.fn("R01-meta", "pkg/board", "Position", "emitPromo")
 	captureAt := c.fn("R01-meta", "pkg/board", "Position", "captureAt")
-	lastPop := c.P.Func("pkg/board", "Bitboard", "LastPopSquare")
+	lastPop := c.find("pkg/board", "Bitboard", "LastPopSquare")
 	if emitMove == nil || emitPromo == nil || captureAt == nil {
 		return
 	}
